@@ -1545,7 +1545,9 @@ def _encode_host(host: str, validate_host: bool) -> str:
         raise ValueError(
             f"Host {host!r} cannot contain {value!r} (at position {pos}){extra}"
         ) from None
-    return host
+    # A colon can only come out of brackets (IPvFuture): put them back, like
+    # for IPv6 addresses, or the netloc cannot be split again.
+    return f"[{host}]" if ":" in host else host
 
 
 @rewrite_module
